@@ -63,7 +63,7 @@ var awkwardTables = [][]string{
 }
 
 var awkwardPaths = []string{"/bb/b", "/a/ab/b", "/a/b/", "/ab/b/", "/a/b", "/a/", "/a/c", "/a/$n", "/a/~v", "/a/c/d", "/a/b/ab/abc", "/a/b/a/", "/ab/a/a", "/a", "/b/", "/abb/", "/abc/", "/a/a/a/a", "/a/a/a/ab", "/ab", "/a/b/b", "/a/b/", "/ab/b", "/ab/b/"}
-var awkwardHosts = []string{"1.2", "10.0.0.7", "1", "[::1]:80", "1.b.b.a", "a.1.2.a", "b.a.a.a", "a.ab", "a.b.ab", "a.ab:8080", "aa.abb.abb", "a.b", "a.b.a", "a.b.b", "b.a.b"}
+var awkwardHosts = []string{"/a", "a.b/a", "/", "a/b.b", "1.2", "10.0.0.7", "1", "[::1]:80", "1.b.b.a", "a.1.2.a", "b.a.a.a", "a.ab", "a.b.ab", "a.ab:8080", "aa.abb.abb", "a.b", "a.b.a", "a.b.b", "b.a.b"}
 
 type matchGen struct {
 	Pool   []string
